@@ -142,6 +142,16 @@ func (t *tType) Equal(p0, p1 unsafe.Pointer) bool {
 	return false
 }
 
+// isBinary returns true if the Go type is []byte or *[]byte (optional binary held by pointer),
+// false for string and *string. For pointers the decoder writes to the pointee,
+// whose kind is in t.V.Tag.
+func (t *tType) isBinary() bool {
+	if t.IsPointer {
+		return t.V.Tag == defs.T_binary
+	}
+	return t.Tag == defs.T_binary
+}
+
 type ttypesK struct {
 	T string
 	S reflect.Type
